@@ -131,7 +131,7 @@ def make_params(cfg):
 
 
 def cfg_key(cfg):
-    return "|".join(str(cfg.get(k)) for k in ("method", "solver", "fmode", "ex", "act", "engine")) + (f"|acts={cfg['acts']}" if cfg.get("acts") else "") + ("|uhf" if cfg.get("uhf") else "")
+    return "|".join(str(cfg.get(k)) for k in ("method", "solver", "fmode", "ex", "act", "engine")) + (f"|acts={cfg['acts']}" if cfg.get("acts") else "") + ("|uhf" if cfg.get("uhf") else "") + (f"|com={cfg['com'][0]}{cfg['com'][1]}" if cfg.get("com") else "")
 
 
 def tolerance(cfg):
@@ -167,7 +167,7 @@ def _md_call(mols, specs, cfg, pad, pat):
     with B.uninitialised("zero"):
         return B.run_md(
             eng, mols, p, MD_STEPS, dt=0.5, temp=0.0, velocities=[velocity(s) for s in specs], pad_extra=pad,
-            pattern=pat, k=3, xl_extra=xe, horizon=Horizon(HORIZON * (MD_STEPS + 1)),
+            pattern=pat, k=3, xl_extra=xe, horizon=Horizon(HORIZON * (MD_STEPS + 1)), remove_com=cfg.get("com"),
         )  # fmt: skip
 
 
@@ -552,6 +552,14 @@ def lattice(tier, seed):
             if ts:
                 mate = ALPHABET[(i + 2) % len(ALPHABET)]
                 cases.append(_case("md", [_spec(mate), _spec(name, 0, ts[-1])], 1, "far", cfg, seed))
+    # centre-of-mass removal during the run (user velocities carry net linear and angular momentum): what is removed
+    # from a molecule, and the kinetic energy handed back to it, must not depend on its batch mates
+    for engine in ("bomd", "xl") if quick else list(ENGINES):
+        if engine not in ENGINES:
+            continue
+        for com in (["linear", 1], ["angular", 2]):
+            for bt in [list(t) for t in itertools.permutations(["CH4", "H2O", "HF"], 2)] + ([] if quick else [["H2CO", "C2H2"], ["OH-", "NH4+"], ["CH4", "H2O", "HF"]]):
+                cases.append(_case("md", [_spec(n) for n in bt], 1, "far", _cfg("AM1", engine=engine, com=com), seed))
     for engine in ENGINES_PAIRS_ONLY:
         for bt in md_batches:
             cases.append(_case("md", [_spec(n) for n in bt], 1, "far", _cfg("AM1", engine=engine), seed))
